@@ -669,15 +669,15 @@ pub fn checks() -> Vec<CheckDef> {
     CheckDef {
         id: "C17",
         level: "exploration",
-        runs_quick: 6_000,
+        runs_quick: 4_000,
         runs_thorough: 300_000,
-        rule: "2-8 Replicas, each over its own SqliteStorage handle (own actor thread and connection) on the same directory, run scripts of commits (operations built through the TaskData API from reads made in earlier transactions), undo, working-set rebuilds and reads; every storage call of every handle is a scheduling point of the seeded scheduler, which also issues BEGINs while another handle holds the write lock (the BEGIN then really blocks in SQLite's busy handler until the holder is scheduled through its commit; never two waiters). Whether a request blocks is observed, not assumed: after issuing it the executor waits for exactly one of two events, its reply or a busy-handler sleep of an actor thread (nanosleep is interposed), so a request that blocks anywhere (not only in BEGIN) parks its handle until the other handles have left their transactions. Audit through a fresh handle: the stored operation log equals the concatenation of the successful commits in the order their storage commits returned, an undo only succeeded on the then most recent operations, the stored tasks equal the one-at-a-time application of those commits, no working-set entry is duplicated. Non-trivial: commits of different handles alternated; distinct = distinct trace hash.",
+        rule: "2-8 Replicas, each over its own SqliteStorage handle (own actor thread and connection; in a quarter of the runs each handle is a process of its own, `tcsim handle17`, stepped by the scheduler over pipes, so that the handles share nothing but the database files and their fcntl locks) on the same directory, run scripts of commits (operations built through the TaskData API from reads made in earlier transactions), undo, working-set rebuilds and reads; every storage call of every handle is a scheduling point of the seeded scheduler, which also issues BEGINs while another handle holds the write lock (the BEGIN then really blocks in SQLite's busy handler until the holder is scheduled through its commit; never two waiters). Whether a request blocks is observed, not assumed: after issuing it the executor waits for exactly one of two events, its reply or a busy-handler sleep of an actor thread (nanosleep is interposed), so a request that blocks anywhere (not only in BEGIN) parks its handle until the other handles have left their transactions. Audit through a fresh handle: the stored operation log equals the concatenation of the successful commits in the order their storage commits returned, an undo only succeeded on the then most recent operations, the stored tasks equal the one-at-a-time application of those commits, no working-set entry is duplicated. Non-trivial: commits of different handles alternated; distinct = distinct trace hash.",
         gen: gen_c17,
         run: run_c17,
         shrink: shrink_c17,
         real: &["taskchampion::Replica", "taskdb::*", "storage::sqlite", "storage::send_wrapper (one actor thread per handle)", "rusqlite + bundled SQLite file locking on tmpfs"],
         stub: &[],
-        assumptions: &["handles are futures in one process, each with its own connection and thread; multi-process access is not exercised", "a blocked BEGIN that times out (5 s real time) makes the operation fail; the oracle then requires it to be absent, so timing can change a log but not raise an alarm"],
+        assumptions: &["three quarters of the runs keep all handles in one process (each with its own connection and thread), one quarter give every handle its own process; in both only one handle executes at a time, apart from one handle waiting for the database lock", "a blocked BEGIN that times out (5 s real time) makes the operation fail; the oracle then requires it to be absent, so timing can change a log but not raise an alarm"],
     },
     CheckDef {
         id: "C16",
@@ -723,9 +723,12 @@ pub struct Sc17 {
     pub sched_seed: u64,
     /// probability (per mille) of issuing a BEGIN while another handle holds the write lock
     pub contention: u32,
+    /// every handle lives in a process of its own (`tcsim handle17`), stepped over pipes
+    #[serde(default)]
+    pub procs: bool,
 }
 
-#[derive(Clone, Debug)]
+#[derive(Clone, Debug, Serialize, Deserialize)]
 enum Done17 {
     Commit { ops: Operations, ok: bool },
     Undo { ops: Operations, result: Option<bool> },
@@ -808,6 +811,166 @@ fn node17(n: usize, w: Rc<RefCell<W17>>) -> NodeFut {
     })
 }
 
+// ---- handles in processes of their own ------------------------------------------------------------
+// `tcsim handle17` runs one handle's script under its own executor and is stepped by the parent
+// through its stdin/stdout: "S <now>" = step (report a lock wait instead of waiting), "W <now>" =
+// step and wait. After each step it reports where it parked, how many of its commits returned
+// and what its finished actions did. The parent's scheduler is the same as for in-process handles.
+
+#[derive(Serialize, Deserialize)]
+struct Init17 {
+    sc: Sc17,
+    node: usize,
+    dir: String,
+    want_log: bool,
+}
+
+#[derive(Serialize, Deserialize, Default)]
+struct Reply17 {
+    /// "parked:<label>", "done", "blocked", "crashed"
+    out: String,
+    commits: usize,
+    done: Vec<(Option<usize>, usize, usize, Done17)>,
+    violations: Vec<Violation>,
+    probes: BTreeMap<String, u64>,
+    log: Vec<String>,
+    trace: u64,
+    points: BTreeMap<String, u64>,
+}
+
+struct Proc17 {
+    child: std::process::Child,
+    stdin: std::process::ChildStdin,
+    stdout: std::io::BufReader<std::process::ChildStdout>,
+}
+
+impl Drop for Proc17 {
+    fn drop(&mut self) {
+        let _ = self.child.kill();
+        let _ = self.child.wait();
+    }
+}
+
+fn label17(l: &str) -> &'static str {
+    // the scheduler only distinguishes these
+    match l {
+        "st.txn" => "st.txn",
+        "act" => "act",
+        _ => "st.other",
+    }
+}
+
+impl Proc17 {
+    fn spawn(sc: &Sc17, node: usize, dir: &Path, want_log: bool) -> Option<Proc17> {
+        use std::io::Write;
+        let exe = std::env::current_exe().ok()?;
+        let mut child = std::process::Command::new(exe)
+            .arg("handle17")
+            .stdin(std::process::Stdio::piped())
+            .stdout(std::process::Stdio::piped())
+            .stderr(if std::env::var_os("TCSIM_TRACE17").is_some() { std::process::Stdio::inherit() } else { std::process::Stdio::null() })
+            .spawn()
+            .ok()?;
+        let mut stdin = child.stdin.take()?;
+        let stdout = std::io::BufReader::new(child.stdout.take()?);
+        let init = Init17 { sc: sc.clone(), node, dir: dir.to_string_lossy().into_owned(), want_log };
+        writeln!(stdin, "{}", serde_json::to_string(&init).ok()?).ok()?;
+        Some(Proc17 { child, stdin, stdout })
+    }
+
+    fn step(&mut self, node: usize, wait: bool, now: i64, w: &Rc<RefCell<W17>>, node_commits: &mut [Vec<usize>], node_trace: &mut [u64]) -> Option<PollOutcome> {
+        use std::io::{BufRead, Write};
+        writeln!(self.stdin, "{} {}", if wait { "W" } else { "S" }, now).ok()?;
+        self.stdin.flush().ok()?;
+        let mut line = String::new();
+        if self.stdout.read_line(&mut line).ok()? == 0 {
+            return None;
+        }
+        let r: Reply17 = serde_json::from_str(&line).ok()?;
+        node_trace[node] = r.trace;
+        exec::with_ctx(|c| {
+            for _ in 0..r.commits {
+                node_commits[node].push(c.commit_log.len());
+                c.commit_log.push(node);
+            }
+            for (k, v) in &r.points {
+                // labels are static strings in the executor; count under the scheduler's names
+                *c.points.entry(label17(k)).or_insert(0) += *v;
+            }
+        });
+        let mut wb = w.borrow_mut();
+        wb.done.extend(r.done);
+        wb.violations.extend(r.violations);
+        for (k, v) in r.probes {
+            *wb.probes.entry(k).or_insert(0) += v;
+        }
+        wb.log.extend(r.log);
+        Some(match r.out.as_str() {
+            "done" => PollOutcome::Done,
+            "blocked" => PollOutcome::Blocked,
+            "crashed" => PollOutcome::Crashed,
+            o => PollOutcome::Parked(label17(o.strip_prefix("parked:")?)),
+        })
+    }
+}
+
+/// `tcsim handle17`: one storage handle of a C17 run, stepped by the parent process.
+pub fn handle17_main() -> i32 {
+    use std::io::{BufRead, Write};
+    let stdin = std::io::stdin();
+    let mut lines = stdin.lock().lines();
+    let Some(Ok(first)) = lines.next() else { return 2 };
+    let Ok(init) = serde_json::from_str::<Init17>(&first) else { return 2 };
+    let n = init.node;
+    crate::interpose::activate(mix(init.sc.seed, "handle17", n as u64), crate::interpose::EPOCH0);
+    exec::install(Ctx::new(init.sc.nodes));
+    let w = Rc::new(RefCell::new(W17 { sc: init.sc.clone(), dir: PathBuf::from(&init.dir), done: vec![], violations: vec![], probes: BTreeMap::new(), log: vec![], want_log: init.want_log }));
+    let mut fut: Option<NodeFut> = Some(node17(n, w.clone()));
+    let mut commits_seen = 0usize;
+    let stdout = std::io::stdout();
+    for line in lines {
+        let Ok(line) = line else { break };
+        let mut it = line.split_whitespace();
+        let (Some(cmd), Some(now)) = (it.next(), it.next().and_then(|x| x.parse::<i64>().ok())) else { return 2 };
+        crate::interpose::set_now_ns(now);
+        let Some(f) = fut.as_mut() else { break };
+        let out = if cmd == "W" { exec::step(n, f) } else { exec::step_nowait(n, f) };
+        let mut r = Reply17::default();
+        r.out = match &out {
+            PollOutcome::Parked(l) => format!("parked:{l}"),
+            PollOutcome::Done => "done".into(),
+            PollOutcome::Blocked => "blocked".into(),
+            PollOutcome::Crashed => "crashed".into(),
+        };
+        exec::with_ctx(|c| {
+            r.commits = c.commit_log.len() - commits_seen;
+            commits_seen = c.commit_log.len();
+            r.trace = c.trace.0;
+            r.points = std::mem::take(&mut c.points).into_iter().map(|(k, v)| (k.to_string(), v)).collect();
+        });
+        {
+            let mut wb = w.borrow_mut();
+            r.done = std::mem::take(&mut wb.done);
+            r.violations = std::mem::take(&mut wb.violations);
+            r.probes = std::mem::take(&mut wb.probes);
+            r.log = std::mem::take(&mut wb.log);
+        }
+        let finished = matches!(out, PollOutcome::Done | PollOutcome::Crashed);
+        if finished {
+            // close the connection (and let the actor thread finish) before reporting
+            fut = None;
+        }
+        let mut so = stdout.lock();
+        if writeln!(so, "{}", serde_json::to_string(&r).unwrap_or_default()).is_err() || so.flush().is_err() {
+            break;
+        }
+        if finished {
+            break;
+        }
+    }
+    0
+}
+
 pub fn run_c17(scv: &Value, want_log: bool) -> RunResult {
     let sc: Sc17 = match serde_json::from_value(scv.clone()) {
         Ok(s) => s,
@@ -821,7 +984,22 @@ pub fn run_c17(scv: &Value, want_log: bool) -> RunResult {
     // create the database before the handles race to do so (schema creation is not the subject)
     let _ = block_on(async { SqliteStorage::new(&dir, AccessMode::ReadWrite, true).await.map(|_| ()) });
     let w = Rc::new(RefCell::new(W17 { sc: sc.clone(), dir: dir.clone(), done: vec![], violations: vec![], probes: BTreeMap::new(), log: vec![], want_log }));
-    let mut nodes: Vec<Option<NodeFut>> = (0..n).map(|i| Some(node17(i, w.clone()))).collect();
+    let mut nodes: Vec<Option<NodeFut>> = if sc.procs { (0..n).map(|_| None).collect() } else { (0..n).map(|i| Some(node17(i, w.clone()))).collect() };
+    let mut procs: Vec<Option<Proc17>> = Vec::new();
+    if sc.procs {
+        for i in 0..n {
+            match Proc17::spawn(&sc, i, &dir, want_log) {
+                Some(p) => procs.push(Some(p)),
+                None => {
+                    return RunResult { violations: vec![Violation { oracle: "harness".into(), sig: "handle-spawn".into(), detail: "cannot start a handle process".into() }], ..Default::default() };
+                }
+            }
+        }
+        *w.borrow_mut().probes.entry("handles_in_separate_processes".into()).or_insert(0) += 1;
+    }
+    let mut node_commits: Vec<Vec<usize>> = vec![Vec::new(); n];
+    let mut died = false;
+    let mut node_trace: Vec<u64> = vec![0; n];
     let mut parked: Vec<Option<&'static str>> = vec![None; n];
     let mut in_txn = vec![false; n];
     let mut blocked: Option<usize> = None;
@@ -830,7 +1008,7 @@ pub fn run_c17(scv: &Value, want_log: bool) -> RunResult {
     let mut sched_hash = Fnv::default();
     let mut now = crate::interpose::EPOCH0 * 1_000_000_000;
     loop {
-        let runnable: Vec<usize> = (0..n).filter(|i| nodes[*i].is_some()).collect();
+        let runnable: Vec<usize> = (0..n).filter(|i| nodes[*i].is_some() || procs.get(*i).map_or(false, |p| p.is_some())).collect();
         if runnable.is_empty() {
             break;
         }
@@ -875,11 +1053,26 @@ pub fn run_c17(scv: &Value, want_log: bool) -> RunResult {
         // BEGIN issued under contention is expected to block; any other request that blocks is
         // handled the same way); while one waits, the others are stepped to completion
         let _ = nowait;
-        let mut out = if blocked.is_none() { exec::step_nowait(pick, nodes[pick].as_mut().unwrap()) } else { exec::step(pick, nodes[pick].as_mut().unwrap()) };
+        let mut do_step = |wait: bool| -> PollOutcome {
+            if sc.procs {
+                match procs[pick].as_mut().unwrap().step(pick, wait, now, &w, &mut node_commits, &mut node_trace) {
+                    Some(o) => o,
+                    None => {
+                        died = true;
+                        PollOutcome::Crashed
+                    }
+                }
+            } else if wait {
+                exec::step(pick, nodes[pick].as_mut().unwrap())
+            } else {
+                exec::step_nowait(pick, nodes[pick].as_mut().unwrap())
+            }
+        };
+        let mut out = do_step(blocked.is_some());
         if out == PollOutcome::Blocked && (holder.is_none() || holder == Some(pick)) {
             // no other handle is inside a transaction: the lock is only held by a transaction that
             // was dropped and is being rolled back by its actor thread right now; wait for it
-            out = exec::step(pick, nodes[pick].as_mut().unwrap());
+            out = do_step(true);
         }
         if blocked == Some(pick) && !matches!(out, PollOutcome::Blocked) {
             blocked = None;
@@ -894,6 +1087,9 @@ pub fn run_c17(scv: &Value, want_log: bool) -> RunResult {
             }
             PollOutcome::Done => {
                 nodes[pick] = None;
+                if sc.procs {
+                    procs[pick] = None;
+                }
                 parked[pick] = None;
                 in_txn[pick] = false;
             }
@@ -906,11 +1102,31 @@ pub fn run_c17(scv: &Value, want_log: bool) -> RunResult {
             }
             PollOutcome::Crashed => {
                 nodes[pick] = None;
+                if sc.procs {
+                    procs[pick] = None;
+                }
                 in_txn[pick] = false;
             }
         }
     }
     drop(nodes);
+    drop(procs);
+    if died {
+        w.borrow_mut().violations.push(Violation { oracle: "harness".into(), sig: "handle-died".into(), detail: "a handle process ended or answered unintelligibly".into() });
+    }
+    if sc.procs {
+        // the handles reported the sequence number of each commit among their own; place them in
+        // the order in which the commits returned (one handle runs at a time)
+        let mut wb = w.borrow_mut();
+        for d in wb.done.iter_mut() {
+            d.0 = d.0.and_then(|local| node_commits[d.1].get(local).copied());
+        }
+        exec::with_ctx(|c| {
+            for t in &node_trace {
+                c.trace.write_u64(*t);
+            }
+        });
+    }
     // ---- audit through a fresh handle ------------------------------------------------------------
     let ctx = exec::uninstall().unwrap();
     let fin = block_on(async {
@@ -1082,7 +1298,7 @@ pub fn gen_c17(seed: u64, i: u64, _thorough: bool) -> Value {
         }
         scripts.push(sc);
     }
-    serde_json::to_value(Sc17 { check: "C17".into(), seed: s, nodes, scripts, sched_seed: rng.next_u64(), contention: *rng.pick(&[0u32, 100, 300, 600]) }).unwrap()
+    serde_json::to_value(Sc17 { check: "C17".into(), seed: s, nodes, scripts, sched_seed: rng.next_u64(), contention: *rng.pick(&[0u32, 100, 300, 600]), procs: rng.chance(1, 4) || std::env::var_os("TCSIM_C17_PROCS").is_some() }).unwrap()
 }
 
 pub fn shrink_c17(scv: &Value) -> Vec<Value> {
@@ -1113,6 +1329,11 @@ pub fn shrink_c17(scv: &Value) -> Vec<Value> {
     if sc.contention != 0 {
         let mut c = sc.clone();
         c.contention = 0;
+        out.push(c);
+    }
+    if sc.procs {
+        let mut c = sc.clone();
+        c.procs = false;
         out.push(c);
     }
     out.into_iter().map(|s| serde_json::to_value(s).unwrap()).collect()
